@@ -16,7 +16,7 @@ ADV_ATOMS = [
     "a", "b", "Z", "1", " ", "  ", "<", ">", "&", '"', "'", "]]>", "<!--", "-->", "&amp;", "&lt;", "&#x41;", "&#65;",
     "<b>", "</b>", "<x/>", "{", "}", "$", "%", "\\", "#", "|", "é", "ß", "😀", "𝔘", "مرحبا", "שלום", "é", " ",
     "‍", "‏", "=", ";", ",", "/", "?", "*", "+", "(", ")", "[", "]", "~", "`", "^", "_", "-", ":", ".", "@", "!",
-    "‘", "’", "“", "”", "<![CDATA[", "&unknown;", "\t", "\n", "instance(", " instance( ", "pulldata(", "instance('x",
+    "‘", "’", "“", "”", "<![CDATA[", "&unknown;", "\t", "\n", "\r\n", "\r", "instance(", " instance( ", "pulldata(", "instance('x",
 ]
 PLAIN_ATOMS = ["a", "b", "c", "Q", "x", "1", "2", " ", "é", "-", "_", "."]
 WORDS = ["alpha", "beta", "gamma", "delta", "omega", "sigma", "kappa", "zeta"]
@@ -45,7 +45,7 @@ def adv_text(draw, atoms=ADV_ATOMS, min_size=1, max_size=7, allow_ws_ctl=True):
     parts = draw(st.lists(st.sampled_from(atoms), min_size=min_size, max_size=max_size))
     s = "".join(parts)
     if not allow_ws_ctl:
-        s = s.replace("\t", " ").replace("\n", " ")
+        s = s.replace("\t", " ").replace("\n", " ").replace("\r", " ")
     if not s.strip() or _bad_plain(s):
         s = "t" + s.replace("${", "$ {").replace("instance(", "instance (")
     return s
@@ -112,7 +112,7 @@ class G:
         k = self.integer(min_size, max_size)
         s = "".join(self.pick(atoms) for _ in range(k))
         if not allow_ws_ctl:
-            s = s.replace("\t", " ").replace("\n", " ")
+            s = s.replace("\t", " ").replace("\n", " ").replace("\r", " ")
         if not s.strip() or _bad_plain(s):
             s = "t" + s.replace("${", "$ {").replace("instance(", "instance (")
         return s
@@ -195,7 +195,7 @@ class G:
         self.txtn += 1
         if self.P.get("p_lit_ws", 0) and self.p("p_lit_ws"):
             # a string literal typed over two lines or with a tab (Alt+Enter in a spreadsheet cell)
-            return f"'k{self.txtn}" + self.pick(["\n", "\t", "\n\n", " \n "]) + "z'"
+            return f"'k{self.txtn}" + self.pick(["\n", "\t", "\n\n", " \n ", "\r\n", "\r"]) + "z'"
         return f"'k{self.txtn}'"
 
     def expr(self, ctx=None, kind="bool"):
@@ -501,8 +501,14 @@ class G:
             self.in_repeat_names[nm] = inside_repeat
         return {"k": "q", "c": c}
 
+    LEGACY_META = ["start time", "get start time", "end time", "get end time", "get today", "device id", "get device id", "get phone number",
+                   "sim id", "get sim id", "subscriber id", "get subscriber id", "uri:deviceid", "uri:username", "uri:email", "uri:phonenumber",
+                   "uri:simserial", "uri:subscriberid"]
+
     def meta_question(self):
         base = self.pick(self.META)
+        if self.P.get("p_legacy_meta", 0) and self.p("p_legacy_meta"):
+            base = self.pick(self.LEGACY_META)
         c = {"type": base, "name": self.name("m")}
         if base == "background-audio" and self.p("_", 0.4):
             c["parameters"] = "quality=" + self.pick(["voice-only", "low", "normal"])
